@@ -60,6 +60,8 @@ func cmdGen(args []string) {
 			b = g.scnC14()
 		case "C09":
 			b = g.behC09()
+		case "C03":
+			b = g.behC03()
 		default:
 			if fn, ok := genFns[*prop]; ok {
 				b = fn(g)
@@ -973,4 +975,40 @@ func (g *gen) behC09() M {
 	cfg := baseCfg()
 	cfg["limit"] = 1 << 20
 	return M{"cfg": cfg, "steps": steps}
+}
+
+// behC03: streams of valid, surplus-carrying and truncated messages of every
+// type: Parse with parameter OIDs the server does not read, Execute with a row
+// limit, simple and extended cycles, COPY, unknown and stray messages, and
+// (at the end, since they may end the connection) malformed ones.
+func (g *gen) behC03() M {
+	var b M
+	switch g.rng.Intn(4) {
+	case 0:
+		b = g.behC05()
+	case 1:
+		b = g.behC06()
+	case 2:
+		b = g.behC13()
+	default:
+		b = g.behC07()
+	}
+	steps := b["steps"].([]any)
+	// surplus fields: OIDs in Parse, a row limit in Execute
+	for _, sv := range steps {
+		m := run.AsM(run.AsM(sv)["m"])
+		switch run.S(m, "t") {
+		case "P":
+			m["noids"] = g.rng.Intn(4)
+		case "E":
+			m["max"] = g.rng.Intn(1000)
+		}
+		delete(run.AsM(sv), "nowait")
+	}
+	if g.chance(0.3) {
+		steps = append(steps, send(M{"t": "Bad", "ty": g.pick("Q", "P", "B", "D", "E"), "cls": g.pick("nonul", "short", "count")}),
+			send(M{"t": "Q", "q": g.trivialQ()}), send(M{"t": "S"}))
+	}
+	b["steps"] = steps
+	return b
 }
